@@ -131,6 +131,16 @@ type Ctx struct {
 	res      Result
 	group    string
 	stop     bool
+	aff      int
+	useAff   bool
+}
+
+// Affinity makes subsequent cases be assigned to shards by i instead of by the
+// running case index (so that cases sharing expensive inputs land in the same
+// worker and hit its caches). Affinity(-1) returns to the default.
+func (c *Ctx) Affinity(i int) {
+	c.useAff = i >= 0
+	c.aff = i
 }
 
 // NewCtx makes a context.
@@ -189,7 +199,11 @@ func (c *Ctx) Case(key string, fn func(t *T)) {
 			return
 		}
 	} else {
-		if idx%c.NShards != c.Shard {
+		sel := idx
+		if c.useAff {
+			sel = c.aff
+		}
+		if sel%c.NShards != c.Shard {
 			return
 		}
 		if c.capped() {
